@@ -208,11 +208,27 @@ double c_big(const Op& op) {
 #define CTX_R(i) c.R[size_t((i) & 3)]
 #define CTX_C(i) c.C[size_t((i) & 3)]
 
+// arg 3 != 0: a few samples are NaN / +-Inf (sample VALUES are unconstrained by the contract; only sizes and indices are)
+void poison(double* p, int n, int stride, uint32_t seed, int how) {
+    if (how == 0 || n == 0) {
+        return;
+    }
+    Rng r(mix(seed, 0xBAD));
+    const int cnt = 1 + int(r.below(3));
+    for (int k = 0; k < cnt; ++k) {
+        const int i = int(r.below(uint64_t(n)));
+        p[i * stride] = (how == 1) ? std::nan("") : (how == 2) ? INFINITY : (r.chance(0.5) ? std::nan("") : -INFINITY);
+    }
+}
 void op_mkR(Ctx& c, const Op& op) {
-    CTX_R(op.iarg(1)) = rvec(uint32_t(op.iarg(2)), op.iarg(0));
+    arr_real& a = CTX_R(op.iarg(1));
+    a = rvec(uint32_t(op.iarg(2)), op.iarg(0));
+    poison(a.data(), a.size(), 1, uint32_t(op.iarg(2)), int(op.iarg(3)) % 4);
 }
 void op_mkC(Ctx& c, const Op& op) {
-    CTX_C(op.iarg(1)) = cvec(uint32_t(op.iarg(2)), op.iarg(0));
+    arr_cmplx& a = CTX_C(op.iarg(1));
+    a = cvec(uint32_t(op.iarg(2)), op.iarg(0));
+    poison(reinterpret_cast<double*>(a.data()), a.size(), 2, uint32_t(op.iarg(2)), int(op.iarg(3)) % 4);
 }
 void op_mkneg(Ctx&, const Op& op) {
     // negative sizes only where the declared type is a size: an exception from std::vector is a pass
@@ -557,7 +573,7 @@ void op_util(Ctx& c, const Op& op) {
         sink(dsplib::to_complex(x.to_vec()));
         break;
     case 16:
-        sink(dsplib::from_real<int16_t>(x).size() ? 1.0 : 0.0);
+        sink(dsplib::from_real<float>(x).size() ? 1.0 : 0.0);   // (to integer T only representable values are in contract)
         break;
     default:
         sink(dsplib::cumsum(z, (op.iarg(3) % 2) ? dsplib::Direction::Reverse : dsplib::Direction::Forward));
@@ -675,7 +691,7 @@ void op_fft(Ctx& c, const Op& op) {
     const arr_real& x = CTX_R(i);
     const arr_cmplx& z = CTX_C(i);
     const int nn = int(rel_len(z.size(), int(op.iarg(3))));
-    switch (op.iarg(2) % 10) {
+    switch (op.iarg(2) % 11) {
     case 0:
         sink(dsplib::fft(z));
         break;
@@ -705,8 +721,14 @@ void op_fft(Ctx& c, const Op& op) {
     case 8:
         sink(dsplib::hilbert(x));
         break;
-    default:
+    case 9:
         sink(dsplib::hilbert(x, int(rel_len(x.size(), int(op.iarg(3))))));
+        break;
+    default:
+        // a burst of inverse real transforms of other sizes (whatever per-thread tables exist get recycled)
+        for (int n2 : {6, 8, 10, 12, 16, 20, 24, 34}) {
+            sink(dsplib::irfft(cvec(uint32_t(n2), n2)));
+        }
         break;
     }
 }
@@ -816,6 +838,7 @@ void op_procframe(Ctx& c, const Op& op) {
     for (auto& v : x) {
         v = r.normal();
     }
+    poison(x.data(), int(x.size()), 1, uint32_t(op.iarg(2)), int(op.iarg(3)) % 4);
     std::vector<std::vector<double>> ch(static_cast<size_t>(p.nch));
     p.call(x.data(), int(n), ch);
 }
@@ -856,6 +879,14 @@ void op_fir_misc(Ctx& c, const Op& op) {
     }
     case 3:
         sink(double(int(dsplib::firtype(h.empty() ? arr_real{1.0} : h))));
+        if (h.size() >= 2) {
+            // the impulse response replaced through the public mutable accessor by one of another length, then used
+            dsplib::FirFilterR f(h);
+            sink(f.process(x));
+            f.coeffs() = CTX_R(op.iarg(1) + 2);
+            sink(f.process(x));
+            sink(f.process(arr_real{1.0, 2.0}));
+        }
         break;
     case 4: {
         const int n = 1 + int(op.iarg(3)) % 40;
@@ -1388,7 +1419,7 @@ Op gen_op(Rng& r, const OpDef& d, bool misuse) {
     auto R = [&](int64_t lo, int64_t hi) { return double(r.range(lo, hi)); };
     const double rel = misuse ? double(r.range(1, 7)) : 0.0;
     if (k == "mkR" || k == "mkC") {
-        op.a = {double(pick_size(r, true)), R(0, 3), double(r.seed32())};
+        op.a = {double(pick_size(r, true)), R(0, 3), double(r.seed32()), r.chance(0.25) ? R(1, 3) : 0.0};
     } else if (k == "mkneg") {
         op.a = {R(0, 1000), R(0, 2)};
     } else if (k == "arith" || k == "cmp") {
@@ -1413,7 +1444,7 @@ Op gen_op(Rng& r, const OpDef& d, bool misuse) {
     } else if (k == "reduce") {
         op.a = {0, R(0, 3), R(0, 25), R(0, 1000), R(0, 9)};
     } else if (k == "fft") {
-        op.a = {0, R(0, 3), R(0, 9), rel};
+        op.a = {0, R(0, 3), R(0, 10), rel};
     } else if (k == "mkplan") {
         op.a = {double(pick_size(r, false)), R(0, 4), R(0, 63), R(0, 1)};
     } else if (k == "solve") {
@@ -1423,7 +1454,7 @@ Op gen_op(Rng& r, const OpDef& d, bool misuse) {
     } else if (k == "mkproc") {
         op.a = {R(0, PK_COUNT - 1), double(r.seed32())};
     } else if (k == "procframe") {
-        op.a = {R(0, 63), rel, double(r.seed32())};
+        op.a = {R(0, 63), rel, double(r.seed32()), r.chance(0.2) ? R(1, 3) : 0.0};
     } else if (k == "adapt_mismatch") {
         op.a = {R(0, 39), rel, R(0, 7), R(0, 3)};
     } else if (k == "fir_misc") {
@@ -1479,14 +1510,15 @@ Plan gen(uint64_t seed, const std::string& tier) {
     const bool any_misuse = r.chance(0.8);
     const int misuse_at = any_misuse ? int(r.below(uint64_t(nops))) : -1;
     const bool many_misuse = r.chance(0.33);
+    bool keep_using_plan = false;
     for (int i = 0; i < NPOOL; ++i) {
         Op a;
         a.kind = "mkR";
-        a.a = {double(pick_size(r, false)), double(i), double(r.seed32())};
+        a.a = {double(pick_size(r, false)), double(i), double(r.seed32()), r.chance(0.08) ? double(r.range(1, 3)) : 0.0};
         pl.ops.push_back(a);
         Op b;
         b.kind = "mkC";
-        b.a = {double(pick_size(r, false)), double(i), double(r.seed32())};
+        b.a = {double(pick_size(r, false)), double(i), double(r.seed32()), r.chance(0.08) ? double(r.range(1, 3)) : 0.0};
         pl.ops.push_back(b);
     }
     for (int i = 0; i < nops; ++i) {
@@ -1502,10 +1534,20 @@ Plan gen(uint64_t seed, const std::string& tier) {
         // follow a constructor with a use of the object
         if (std::string(d->name) == "mkplan") {
             pl.ops.push_back(gen_op(r, *find_op("solve"), (i == misuse_at) || r.chance(0.5)));
+            keep_using_plan = true;
         } else if (std::string(d->name) == "mkproc") {
             pl.ops.push_back(gen_op(r, *find_op("procframe"), (i == misuse_at) || r.chance(0.3)));
             pl.ops.push_back(gen_op(r, *find_op("procframe"), r.chance(0.3)));
         }
+    }
+    if (keep_using_plan && r.chance(0.7)) {
+        // the kept plan is used again after everything else that happened in between
+        if (r.chance(0.5)) {
+            Op f = gen_op(r, *find_op("fft"), false);
+            f.a[2] = 10;
+            pl.ops.push_back(f);
+        }
+        pl.ops.push_back(gen_op(r, *find_op("solve"), false));
     }
     return pl;
 }
